@@ -355,7 +355,7 @@ def deduplicated_taxa(taxa: Taxa) -> Taxa:
             # comes in handy for extracting the common prefix of two taxa:
             common_prefix = commonpath((name, previous_name))
             if not common_prefix:
-                break
+                continue
             if previous_name == common_prefix:
                 difference = spans - previous_spans
                 previous_spans.subtract(spans)
